@@ -8,10 +8,10 @@ EXTENDS AliasTrie, AliasVocab, TLC, Json, SequencesExt
 CONSTANTS MaxOps, Domain, QLen, ExportFile
 VARIABLES trie, abs, n
 
-\* Domain "small": 22 key sequences; "wide": 38 incl. depth 3, a third print-alike type and an INT literal
+\* Domain "small": 24 key sequences; "wide": 41 incl. depth 3, a third print-alike type and an INT literal
 KeyIdx == IF Domain = "small"
-          THEN {<<i>> : i \in 1..10} \cup {<<15>>, <<1, 15>>} \cup {<<1, j>> : j \in {3, 4, 5, 7, 8, 9}} \cup {<<i, j>> : i \in {7, 8}, j \in {1, 3}}
-          ELSE {<<i>> : i \in 1..12} \cup {<<15>>, <<1, 15>>, <<1, 10>>} \cup {<<1, j>> : j \in 1..12} \cup {<<i, j>> : i \in {7, 8, 11}, j \in {1, 2, 3}}
+          THEN {<<i>> : i \in 1..10} \cup {<<15>>, <<1, 15>>, <<16>>, <<1, 16>>} \cup {<<1, j>> : j \in {3, 4, 5, 7, 8, 9}} \cup {<<i, j>> : i \in {7, 8}, j \in {1, 3}}
+          ELSE {<<i>> : i \in 1..12} \cup {<<15>>, <<1, 15>>, <<1, 10>>, <<16>>, <<1, 16>>, <<16, 1>>} \cup {<<1, j>> : j \in 1..12} \cup {<<i, j>> : i \in {7, 8, 11}, j \in {1, 2, 3}}
                \cup {<<1, 3, j>> : j \in {4, 7, 8}}
 QIdx == {0, 1, 2, 3}
 \* query tokens: index into Vocab, or 0 for Arg
